@@ -84,18 +84,33 @@ LayoutOK(lines, s, chain, width0, pre) ==
       a == Align(s, chain)
       ds == DescStart(a) + 2
       rows == ShownOpts(s, chain)
-  IN \A r \in 1..Len(rows) :
-       LET o == rows[r].o
-           head == RowHead(s, o, a, rows[r].indent)
-           i == FindRow(lines, head) IN
-       (s.opts[o].desc # E /\ UniqueHead(s, rows, a, r)) =>
-         /\ i # 0
-         /\ Len(head) <= ds
-         /\ HasPrefix(lines[i], head \o Spaces(ds - Len(head)))                      \* every description starts in the common column
-         /\ Len(lines[i]) > ds /\ lines[i][ds + 1] # SPACE
-         /\ LET j == RowEnd(lines, i, ds) IN
-            /\ Rebuild(lines, i, j, ds) = Collapse(RowText(s, o, pre[o]))               \* the original words, in order, nothing lost
-            /\ (width - ds >= 10 => \A k \in i..j : Len(lines[k]) <= width)           \* no line beyond the terminal width
+      optRows ==
+        \A r \in 1..Len(rows) :
+          LET o == rows[r].o
+              head == RowHead(s, o, a, rows[r].indent)
+              i == FindRow(lines, head) IN
+          (s.opts[o].desc # E /\ UniqueHead(s, rows, a, r)) =>
+            /\ i # 0
+            /\ Len(head) <= ds
+            /\ HasPrefix(lines[i], head \o Spaces(ds - Len(head)))                      \* every description starts in the common column
+            /\ Len(lines[i]) > ds /\ lines[i][ds + 1] # SPACE
+            /\ LET j == RowEnd(lines, i, ds) IN
+               /\ Rebuild(lines, i, j, ds) = Collapse(RowText(s, o, pre[o]))               \* the original words, in order, nothing lost
+               /\ (width - ds >= 10 => \A k \in i..j : Len(lines[k]) <= width)           \* no line beyond the terminal width
+      \* the described positional arguments of the chain are rows of the same table: same column, continuation lines indented to it
+      argRows ==
+        \A k \in 1..Len(chain) : \A x \in 1..Len(s.d.cmds[chain[k]].args) :
+          LET ad == s.d.cmds[chain[k]].args[x]
+              head == Spaces(2) \o ad.name \o <<COLON>>
+              \* two commands of the chain may name a positional alike: some row with this name carries this description
+              cands == {i \in 1..Len(lines) : (lines[i] = head \/ HasPrefix(lines[i], Append(head, SPACE))) /\ Len(lines[i]) > ds}
+          IN (ad.desc # E /\ Len(head) <= ds) =>
+               \E i \in cands :
+                  /\ HasPrefix(lines[i], head \o Spaces(ds - Len(head))) /\ lines[i][ds + 1] # SPACE
+                  /\ LET j == RowEnd(lines, i, ds) IN
+                     /\ Rebuild(lines, i, j, ds) = Collapse(ad.desc)
+                     /\ (width - ds >= 10 => \A m \in i..j : Len(lines[m]) <= width)
+  IN optRows /\ argRows
 
 \* C16 on given lines (built-in help)
 ContentOK(lines, s, chain, pre) ==
